@@ -56,10 +56,14 @@ class GsExpectationValue(Contract):
         return e
 
 
-def new_props(vc, variant="pp"):
+def new_props(vc, variant="pp", r_variant=None):
     l_isr = c04.new_isr(vc, variant)
     gs = l_isr.attrs["gs"]
     r_isr = Inst(c04.ISR, dict(l_isr.attrs))
+    if r_variant is not None and r_variant != variant:
+        # mixed left / right variants (one ground state, two sets of intermediate states)
+        r_isr.attrs["variant"] = r_variant
+        r_isr.attrs["min_space"] = PList(list(c04.VARIANTS[r_variant]))
     l_isr.attrs["_tag"] = "L"
     r_isr.attrs["_tag"] = "R"
     return Inst(PR, {"l_isr": l_isr, "r_isr": r_isr, "gs": gs, "h": gs.attrs["h"]})
@@ -235,11 +239,18 @@ class TransMomentSpace(Contract):
     CASES = [("ph", None, None, "left", "pp"), ("pphh", None, None, "left", "pp"), ("ph", 1, 1, "right", "pp"),
              ("ph", 2, None, "left", "pp"), ("ph", None, 1, "left", "pp"), ("p,h", None, None, "left", "pp"),
              ("phh", None, None, "left", "ip"), ("pph", None, None, "right", "ea"),
-             ("pphhh", 0, 1, "left", "ip"), ("hh", None, None, "left", "dip")]
+             ("pphhh", 0, 1, "left", "ip"), ("hh", None, None, "left", "dip"),
+             # mixed variants "left/right": the default operator string is the one of the variant
+             # whose intermediate states are used (lr_isr)
+             ("h", None, None, "right", "pp/ip"), ("ph", None, None, "right", "ip/pp"),
+             ("ph", None, None, "left", "pp/ea"), ("pph", None, None, "right", "ip/ea"),
+             ("hh", None, 2, "right", "pp/dip")]
 
     def setup(self, vc):
         space, nc, na, lr, variant = self.CASES[vc.choose(len(self.CASES), "case")]
-        a = {"self": new_props(vc, variant), "order": Sym(vc.fresh_int("order")), "space": space,
+        lvar, _, rvar = variant.partition("/")
+        variant = (rvar or lvar) if lr == "right" else lvar
+        a = {"self": new_props(vc, lvar, rvar or None), "order": Sym(vc.fresh_int("order")), "space": space,
              "n_create": nc, "n_annihilate": na, "lr_isr": lr,
              "subtract_gs": Sym(vc.fresh_bool("subtract_gs"))}
         # default operator string: (#p, #h) of the minimal space of the variant
